@@ -98,7 +98,7 @@ pub fn follow_one_head(
 ) -> Result<(Vec<u8>, Followed), String> {
     let mut f = flow.proceed();
     let head_bytes = write_head_big(&mut f).map_err(|e| format!("hop head: {:?}", e))?;
-    let body: Vec<u8> = if needs_body(eff.method) {
+    let body: Vec<u8> = if needs_body(eff.method) || (eff.depth == 0 && cfg.despite) {
         match cfg.declared_len() {
             Some(n) if eff.depth == 0 => vec![b'x'; n as usize],
             _ => vec![],
@@ -240,7 +240,18 @@ pub fn clean_location(rng: &mut Rng, original: &UriRef) -> (&'static str, String
             ("path-relative-dots", format!("{}{}", s, clean_query(rng)))
         }
         8 => ("path-relative", format!("{}/{}{}", seg(rng), seg(rng), clean_query(rng))),
-        9 => ("query-only", format!("?z={}", rng.below(100))),
+        9 => {
+            if rng.chance(1, 4) {
+                // an empty query is still a query: "/p?" and "?" keep their question mark
+                if rng.chance(1, 2) {
+                    ("empty-query", format!("{}?", clean_path(rng)))
+                } else {
+                    ("empty-query", "?".to_string())
+                }
+            } else {
+                ("query-only", format!("?z={}", rng.below(100)))
+            }
+        }
         10 => ("empty", String::new()),
         _ => {
             let h = *rng.pick(&CLEAN_HOSTS);
